@@ -22,6 +22,10 @@ For every file
               and builds the same bytes. Parses/builds that raise, exhaust the memory cap or exceed the CPU cap
               (several parse loops do not terminate on a zero entry size) are *refusals* and only counted.
 
+Within the edit stage an exception raised by the loader is a refusal (the changed content is not acceptable to it),
+but a call that does not return (confirmed with a larger CPU cap) is a violation: the change was taken and the
+re-parse never yields anything.
+
 Not demanded: byte identity for deviated files (counted: the builder emits header-referenced bytes only).
 """
 import logging
@@ -53,8 +57,9 @@ ASSUMPTIONS = [
     "the expected file after an edit is the original file with the one byte at sh_offset + k changed",
 ]
 
-CPU_CAP_SMALL = 0.5     # seconds of process CPU time for one parse/build of a file < 100 kB
+CPU_CAP_SMALL = 0.3     # seconds of process CPU time for one parse/build of a file < 100 kB
 CPU_CAP_BIG = 8.0
+NONTERM_MULT = 4        # a CPU-cap trip inside an edit is re-run with this many times the cap before it is reported
 MEM_CAP = 3 << 29       # address-space cap of a worker while deviated files are handled
 
 EHDR_FIELDS = elfcorpus.EHDR_FIELDS
@@ -118,12 +123,12 @@ def _guarded(f, cap):
         return None, type(ex).__name__
 
 
-def _guarded_sure(f, cap):
+def _guarded_sure(f, cap, mult=8):
     """Like _guarded, for calls whose failure would be reported as a violation: a CPU-cap trip is confirmed with
-    an 8 times larger cap (a non-terminating loop still trips it, a slow machine does not)."""
+    a @mult times larger cap (a non-terminating loop still trips it, a slow machine does not)."""
     r, err = _guarded(f, cap)
     if err == "cpu-cap":
-        r, err = _guarded(f, 8 * cap)
+        r, err = _guarded(f, mult * cap)
     return r, err
 
 
@@ -326,11 +331,28 @@ def check_edit(ent, i, pos, xor, path, orig_view=None):
             e.virt.set(sh.addr + k, nb)
         return True
 
-    _, err = _guarded(apply, cap)
-    if err:
-        return [], "refused:%s:%s:%s" % (path, stype, err)
     what0 = "%s: section %d (%s, %r, %#x bytes at offset %#x), %s byte %#04x -> %#04x through %s" % (
         ent["name"], i, stype, _safe(lambda: bytes(s.sh.name)), len(old), sh.offset, pos, old[k], nb[0], path)
+    _, err = _guarded(apply, cap)
+    if err == "cpu-cap":
+        # an exception is the loader saying no; a call that never returns says nothing: confirm on a fresh object
+        def again():
+            e2 = ELF(data)
+            s2 = e2.sh[i]
+            if path == "assign":
+                s2.content = new
+            elif path == "patch":
+                s2.content[k] = nb
+            else:
+                e2.virt.set(sh.addr + k, nb)
+            return True
+        _, err2 = _guarded(again, NONTERM_MULT * cap)
+        if err2 == "cpu-cap":
+            return [violation("edit:non-termination:%s" % sig_tail, what0 + ": the call does not return (CPU cap %.1fs, then %.1fs)"
+                              % (cap, NONTERM_MULT * cap), case)], "violation"
+        return [], "refused:%s:%s:cpu-cap-unconfirmed" % (path, stype)
+    if err:
+        return [], "refused:%s:%s:%s" % (path, stype, err)
     live, err = _guarded_sure(lambda: view(e), cap) if path != "patch" else (None, None)
     if err:
         return [violation("edit:live-tables-unreadable-%s:%s" % (err, sig_tail), what0 + ": the tables of the modified object cannot be read (%s)" % err, case)], "violation"
@@ -338,13 +360,19 @@ def check_edit(ent, i, pos, xor, path, orig_view=None):
     if err:
         return [violation("edit:build-%s:%s" % (err, sig_tail), what0 + ": bytes(elf) ends with %s" % err, case)], "violation"
     expected = data[:sh.offset + k] + nb + data[sh.offset + k + 1:]
-    want, err = _guarded(lambda: view(ELF(expected)), cap)
+    got, err = _guarded_sure(lambda: view(ELF(out)), cap, NONTERM_MULT)
+    if err == "cpu-cap":
+        # the loader took the change and serialised it, but never finishes reading its own output back
+        return [violation("edit:reparse-non-termination:%s" % sig_tail, what0 + ": re-parsing the serialised file does not return "
+                          "(CPU cap %.1fs, then %.1fs)" % (cap, NONTERM_MULT * cap), case)], "violation"
+    want, werr = _guarded_sure(lambda: view(ELF(expected)), cap, NONTERM_MULT)
     if err:
-        # the content change itself makes the file unreadable for this parser: nothing to compare with
-        return [], "expected-file-unparseable:%s:%s" % (stype, err)
-    got, err = _guarded_sure(lambda: view(ELF(out)), cap)
-    if err:
+        if werr:
+            # the content change itself makes the file unreadable for this parser (it raises): nothing to compare with
+            return [], "expected-file-unparseable:%s:%s" % (stype, werr)
         return [violation("edit:reparse-%s:%s" % (err, sig_tail), what0 + ": re-parsing the serialised file ends with %s" % err, case)], "violation"
+    if werr:
+        return [], "expected-file-unparseable:%s:%s" % (stype, werr)
     vs = []
     d = diff_views(want, got)
     if d:
